@@ -164,6 +164,12 @@ def gen_pool(rng, cfgname, size, uid0=0, gas_only=False):
                 w = rng.choice(T_WINDOWS)
                 base = {"R": R, "P": P, "pseudo": pseudo, "rtype": rtype, "tmin": w[0], "tmax": w[1],
                         "beta": 0.0, "gamma": 0.0}
+            elif ice and not gas_only and kind < 0.20:
+                # gas and ice on the same side (a surface reaction with a gas-phase partner)
+                i = rng.choice(ice)
+                R, P, pseudo, rtype = [rng.choice(gas), i], [rng.choice(gas)], None, RT_UNKNOWN
+                if rng.random() < 0.5:
+                    R = list(reversed(R))
             elif kind < 0.60 or not ice or gas_only:
                 nr = rng.choice([1, 2, 2, 2, 3])
                 R = [rng.choice(gas) for _ in range(nr)]
@@ -217,15 +223,24 @@ def formats_for(cfgname, ar):
             out.append("umist")
     if plain and ar["rtype"] == RT_UNKNOWN and ar["pseudo"] is None and len(ar["P"]) <= 4:
         out.append("krome")
+    # UCLCHEM: reactant, keyword-or-reactant, reactant, four products; ice species are written with '#'
+    if not has_grain and len(ar["P"]) <= 4 and cfg["string_ice"]:
+        if ar["rtype"] == RT_TWOBODY and ar["pseudo"] is None and len(ar["R"]) <= 3:
+            out.append("uclchem")
+        elif ar["rtype"] in (RT_CR, RT_PHOTON) and ar["pseudo"] and len(ar["R"]) == 1:
+            out.append("uclchem")
+        elif ar["rtype"] in (RT_FREEZE, RT_THERM) and len(ar["R"]) == 1:
+            out.append("uclchem")
     return out
 
 
-def spell_list(cfgname, keys, krome=False):
+def spell_list(cfgname, keys, krome=False, variant=0):
     cfg = CONFIGS[cfgname]
     out = []
     for k in keys:
         if krome and k == "E":
-            out.append(cfg["alt"]["E"][0])
+            alts = cfg["alt"]["E"]
+            out.append(alts[variant % len(alts)])
         else:
             out.append(cfg["spell"][k])
     return out
@@ -234,8 +249,8 @@ def spell_list(cfgname, keys, krome=False):
 def encode(cfgname, ar, fmt, idx):
     """One text line (without newline) for the reaction in the given format."""
     cfg = CONFIGS[cfgname]
-    R = spell_list(cfgname, ar["R"], krome=(fmt == "krome"))
-    P = spell_list(cfgname, ar["P"], krome=(fmt == "krome"))
+    R = spell_list(cfgname, ar["R"], krome=(fmt == "krome"), variant=ar.get("uid", 0))
+    P = spell_list(cfgname, ar["P"], krome=(fmt == "krome"), variant=ar.get("uid", 0))
     a, b, c = ar["alpha"], ar["beta"], ar["gamma"]
     if fmt == "naunet":
         if ar["pseudo"]:
@@ -272,6 +287,14 @@ def encode(cfgname, ar, fmt, idx):
         tmin = "NONE" if ar["tmin"] < 0 else repr(float(ar["tmin"]))
         tmax = "NONE" if ar["tmax"] < 0 else repr(float(ar["tmax"]))
         return ",".join([f"{idx}"] + R + P + [tmin, tmax, krome_rate(ar)])
+    if fmt == "uclchem":
+        kw = {RT_CR: "CRP", RT_PHOTON: "PHOTON", RT_FREEZE: "FREEZE", RT_THERM: "THERM"}.get(ar["rtype"])
+        if kw:
+            Rf = [R[0], kw, "NAN"]
+        else:
+            Rf = (R + ["NAN"] * 3)[:3]
+        Pf = (P + ["NAN"] * 4)[:4]
+        return ",".join(Rf + Pf + [repr(float(a)), repr(float(b)), repr(float(c)), repr(float(ar["tmin"])), repr(float(ar["tmax"]))])
     raise ValueError(fmt)
 
 
@@ -285,4 +308,6 @@ def expected_content(ar, fmt):
     tag = ("alpha", float(ar["alpha"]))
     if fmt == "krome":
         tag = ("rate", krome_rate(ar))
+    if fmt == "uclchem" and rtype == RT_FREEZE:
+        tmin, tmax = 0.0, 30.0  # the UCLCHEM reader switches freeze-out off above 30 K
     return (tuple(sorted(ar["R"])), tuple(sorted(ar["P"])), tmin, tmax, rtype, tag)
